@@ -24,9 +24,9 @@ theorem noNone_jump (o : Op) (l : Nat) : NoNone [LItem.ljump o (some l)] := by
 
 /-- exits of a loop body from the exits around the loop -/
 theorem exitsOK_push {cx : Cx} {m j : Nat} {s : St} {env : Src.Env} (hex : ExitsOK cx m j s env) (cl bl : Nat) {c k : Nat}
-    (h1 : R2 cx m j (target cx.rs cl) c) (h2 : R2 cx m j (target cx.rs bl) k) {sa : St} (hl : sa.loops = (cl, bl) :: s.loops)
+    (h1 : R2 cx m j (target cx.rs (cx.cp.σ cl)) c) (h2 : R2 cx m j (target cx.rs (cx.cp.σ bl)) k) {sa : St} (hl : sa.loops = (cl, bl) :: s.loops)
     (hc : sa.cases = s.cases) : ExitsOK cx m j sa (loopEnv env c k) := by
-  refine ⟨fun cl' bl' rest hs => ?_, fun e rest hs => hex.case e rest (by rw [← hc]; exact hs), hex.labs⟩
+  refine ⟨fun cl' bl' rest hs => ?_, fun e rest hs => hex.case e rest (by rw [← hc]; exact hs), hex.labs, hex.ret⟩
   rw [hl] at hs
   simp only [List.cons.injEq, Prod.mk.injEq] at hs
   obtain ⟨⟨rfl, rfl⟩, _⟩ := hs
@@ -89,29 +89,29 @@ theorem forever_pm (cx : Cx) (fuel : Nat) (env : Src.Env) (he : EnvOK cx env) (l
   have hPe := hP (loopEnv env (tbl b).length k) (plainEnv_loopEnv he _ _)
   obtain ⟨hNh, hagB⟩ := agree_set hag (hPe.grow _ _)
   -- positions
-  have hit0 : itemAt cx.rs ⟨r, i0⟩ = some (.label (lb + 1) false) := by simpa using hp.item (d := 0) (by simp)
-  have htgt1 : target cx.rs (lb + 1) = ⟨r, i0⟩ := by
+  have hit0 : ItemC cx.cp cx.rs ⟨r, i0⟩ (.label (lb + 1) false) := by simpa using hp.item (d := 0) (by simp)
+  have htgt1 : target cx.rs (cx.cp.σ (lb + 1)) = ⟨r, i0⟩ := by
     simpa using hp.resolve cx.hlab (d := 0) (l := lb + 1) (nm := false) (by simp)
-  have hpBlk : Placed cx.rs r (i0 + 1) ([LItem.label sL false] ++ ops ++ [LItem.label eB false] ++
+  have hpBlk : Placed cx.cp cx.rs r (i0 + 1) ([LItem.label sL false] ++ ops ++ [LItem.label eB false] ++
       [LItem.ljump ⟨sc.opc + 1, Gen.op_jump, []⟩ (some (lb + 1)), LItem.label (lb + 2) false]) := by
-    have : Placed cx.rs r i0 ([LItem.label (lb + 1) false] ++ ([LItem.label sL false] ++ ops ++ [LItem.label eB false] ++
+    have : Placed cx.cp cx.rs r i0 ([LItem.label (lb + 1) false] ++ ([LItem.label sL false] ++ ops ++ [LItem.label eB false] ++
       [LItem.ljump ⟨sc.opc + 1, Gen.op_jump, []⟩ (some (lb + 1)), LItem.label (lb + 2) false])) := by
       simpa [List.append_assoc] using hp
     simpa using this.right
-  have hitJ : itemAt cx.rs ⟨r, i0 + ops.length + 3⟩ = some (.ljump ⟨sc.opc + 1, Gen.op_jump, []⟩ (some (lb + 1))) := by
+  have hitJ : ItemC cx.cp cx.rs ⟨r, i0 + ops.length + 3⟩ (.ljump ⟨sc.opc + 1, Gen.op_jump, []⟩ (some (lb + 1))) := by
     have e : i0 + ops.length + 3 = i0 + ([LItem.label (lb + 1) false] ++ ([LItem.label sL false] ++ ops ++ [LItem.label eB false])).length := by
       simp; omega
     rw [e]
     exact Placed.here (post := [LItem.label (lb + 2) false]) (by simpa [List.append_assoc] using hp)
-  have hpE : Placed cx.rs r i0 (([LItem.label (lb + 1) false] ++ ([LItem.label sL false] ++ ops ++ [LItem.label eB false]) ++
+  have hpE : Placed cx.cp cx.rs r i0 (([LItem.label (lb + 1) false] ++ ([LItem.label sL false] ++ ops ++ [LItem.label eB false]) ++
       [LItem.ljump ⟨sc.opc + 1, Gen.op_jump, []⟩ (some (lb + 1))]) ++ LItem.label (lb + 2) false :: []) := by
     simpa [List.append_assoc] using hp
   have eE : i0 + ([LItem.label (lb + 1) false] ++ ([LItem.label sL false] ++ ops ++ [LItem.label eB false]) ++
       [LItem.ljump ⟨sc.opc + 1, Gen.op_jump, []⟩ (some (lb + 1))]).length = i0 + ops.length + 4 := by
     simp; omega
-  have hitE : itemAt cx.rs ⟨r, i0 + ops.length + 4⟩ = some (.label (lb + 2) false) := by
+  have hitE : ItemC cx.cp cx.rs ⟨r, i0 + ops.length + 4⟩ (.label (lb + 2) false) := by
     rw [← eE]; exact hpE.here
-  have htgt2 : target cx.rs (lb + 2) = ⟨r, i0 + ops.length + 4⟩ := by
+  have htgt2 : target cx.rs (cx.cp.σ (lb + 2)) = ⟨r, i0 + ops.length + 4⟩ := by
     rw [← eE]; exact hpE.lbl cx.hlab
   have hlen : ([LItem.label (lb + 1) false] ++ ([LItem.label sL false] ++ ops ++ [LItem.label eB false]) ++
       [LItem.ljump ⟨sc.opc + 1, Gen.op_jump, []⟩ (some (lb + 1)), LItem.label (lb + 2) false]).length = ops.length + 5 := by
@@ -125,7 +125,7 @@ theorem forever_pm (cx : Cx) (fuel : Nat) (env : Src.Env) (he : EnvOK cx env) (l
         (Src.trStmts fuel [] (loopEnv env (tbl b).length k) (toSrcStmts body) (tbl b).length
           (b.push (.halt (evInvalid "loop head"))).1).1 := by
     intro m j hyp hPh
-    have hbrk : R2 cx m j (target cx.rs (lb + 2)) k := by
+    have hbrk : R2 cx m j (target cx.rs (cx.cp.σ (lb + 2))) k := by
       rw [htgt2]
       refine R2.silL (lab_label hitE) ?_
       have e : (⟨r, i0 + ops.length + 4⟩ : LPos).next = ⟨r, i0 + (ops.length + 5)⟩ := by
